@@ -3,6 +3,7 @@
   the model's observable trace, and how often the API fast path returns an object.
 -/
 import IcingaProofs.C16.Lemmas
+import IcingaProofs.C16.Stage
 
 namespace Icinga.C16
 
@@ -207,17 +208,19 @@ theorem indexedFull_stmtEquiv {w : World} {rs rs' : Rules} {inv inv' : Inventory
 
 /-- what the model says the harness observes: as written = with the index, wrapped = plain evaluation;
     the thread count does not enter the model; the permuted text = the same two loads of `permRules` / `permInv` -/
-def modelObs (w : World) (rules : Rules) (inv : Inventory) : LoadObs :=
-  { plain1 := obsOf (indexedFull w rules inv), wrap1 := obsOf (plainFull w rules inv)
+def modelObs (w : World) (rules : Rules) (inv : Inventory) (l : Late := ⟨[], []⟩) : LoadObs :=
+  { late1 := some (obsOf (indexedStaged w rules inv l))
+    plain1 := obsOf (indexedFull w rules inv), wrap1 := obsOf (plainFull w rules inv)
     plain16 := some (obsOf (indexedFull w rules inv)), wrap16 := some (obsOf (plainFull w rules inv))
     perm1 := some (obsOf (indexedFull w (permRules rules) (permInv inv)))
     permWrap1 := some (obsOf (plainFull w (permRules rules) (permInv inv))) }
 
-theorem model_load_meets_spec_aux (w : World) (rules : Rules) (inv : Inventory) (silentIf : List ObjObs → Bool) :
-    specLoad w rules inv silentIf (modelObs w rules inv) = none := by
+theorem model_load_meets_spec_aux (w : World) (rules : Rules) (inv : Inventory) (silentIf : List ObjObs → Bool)
+    (l : Late) : specLoad w rules inv silentIf (modelObs w rules inv l) = none := by
   have heq := indexedFull_equiv_plainFull' w rules inv
+  have hst := sameObs_of_equiv (indexedStaged_equiv w rules inv l).symm
   unfold specLoad modelObs
-  simp only [sameObs_of_equiv heq, Option.map_some, sameObs_refl, Option.getD_some, Bool.and_self, Bool.not_true,
+  simp only [sameObs_of_equiv heq, hst, Option.map_some, sameObs_refl, Option.getD_some, Bool.and_self, Bool.not_true,
     Bool.false_eq_true, if_false]
   cases hexp : expectedCreated w rules inv with
   | none => simp [expectedObjs, hexp]
